@@ -176,28 +176,6 @@ Qed.
 (* ------------------------------------------------------------------ *)
 (* D. Data() is local to the stream's own blocks                        *)
 (* ------------------------------------------------------------------ *)
-Lemma skipN_app_le {A} (a b : list A) k : (N.to_nat k <= length a)%nat -> skipN k (a ++ b) = skipN k a ++ b.
-Proof. intros H. rewrite !skipN_skipn, skipn_app. replace (N.to_nat k - length a)%nat with 0%nat by lia. reflexivity. Qed.
-Lemma skipN_map {A B} (f : A -> B) (l : list A) k : skipN k (map f l) = map f (skipN k l).
-Proof. rewrite !skipN_skipn. apply skipn_map. Qed.
-
-Lemma data_scan_local : forall f1 f2 B l expect reft lastrel prev ptc pts,
-    sound B -> (length B < f1)%nat -> (length B < f2)%nat ->
-    data_scan f1 (B ++ l) expect reft lastrel prev ptc pts = data_scan f2 B expect reft lastrel prev ptc pts.
-Proof.
-  induction f1 as [|f1 IH]; intros f2 B l expect reft lastrel prev ptc pts Hs H1 H2; [lia|].
-  destruct f2 as [|f2]; [lia|]. destruct B as [|p rest]; [destruct Hs|]. cbn [app data_scan]. cbv zeta.
-  destruct (if pk_size p =? 0 then (ptc, pts, prev) else _) as [[ptc1 pts1] prev1].
-  cbn [sound] in Hs. unfold has_next in Hs. destruct (pk_flags p mod 2 =? 0); [reflexivity|]. cbn [negb] in Hs.
-  destruct Hs as (Hk & Hskip & Hsr). cbn [length] in *.
-  destruct (negb (pk_skip p =? 0) && ((if negb (expect =? 0) && (pk_rel p <? lastrel) then expect - 1 else expect) =? 0)).
-  - rewrite skipN_app_le by assumption. apply IH.
-    + rewrite skipN_skipn. now apply sound_skip.
-    + rewrite skipN_skipn, skipn_length. lia.
-    + rewrite skipN_skipn, skipn_length. lia.
-  - apply IH; [assumption|lia|lia].
-Qed.
-
 Lemma data_scan_imp f : forall fuel ps expect reft lastrel prev ptc pts,
     data_scan fuel (map (set_imp f) ps) expect reft lastrel prev ptc pts = data_scan fuel ps expect reft lastrel prev ptc pts.
 Proof.
